@@ -172,7 +172,21 @@ def explore(pid, tier, jobs, only_group=None, verbose=False):
     fatal = None
     t0 = time.time()
     deadline = t0 + (H.BUDGET_S[tier] if hasattr(H, 'BUDGET_S') else (600 if tier == 'quick' else 3600))
+    drained = False
     while outstanding:
+        if not drained and time.time() > deadline:
+            # budget used up: tasks still queued are not started (counted as cut); running ones finish
+            drained = True
+            while True:
+                try:
+                    t = task_q.get_nowait()
+                except queue.Empty:
+                    break
+                if t is not None:
+                    agg[t[0]]['cut'] += 1
+                    outstanding -= 1
+            if not outstanding:
+                break
         try:
             out = res_q.get(timeout=5)
         except queue.Empty:
